@@ -37,7 +37,7 @@ P["C03"] = dict(
 
 P["C02"] = dict(
     text="Structural necessary conditions of 'a success is a confirmed fixed point', decided on all paths of the two iteration drivers and the seven stateful resolvers: (FIX1) every result-delivering return of resolve_iteratively and of the asm-block driver is dominated by a pass run with is_last_iteration = true (no guessing) and by the success edge of that pass; (FIX2) each resolver that keeps a value between passes loads the previous value before storing the new one, compares them, and on the `differs` edge can only return Unresolved or Err, every other Resolved being behind the `unchanged` edge or an audited shortcut; (FIX3) `resolved = true` is stored only under optimize_statically_known && <item>_statically_known (&& is_first_iteration, && single match for instructions); (ERR3) an unstable value in a last pass pushes an error. Removing any of these lets a stale guess be emitted or a non-converged run succeed. Added: the single-candidate flag is recognised by its definition (`len() == 1`); delivered values come from the confirming pass.",
-    note="Decides the structure that makes the fixed point genuine, not that the solution found is the smallest consistent encoding for every program (value-level). BigInt equality ignores the size field, so size-only changes are detected through the labels that follow (documented upstream behaviour).",
+    note="Decides the structure that makes the fixed point genuine, not that the solution found is the smallest consistent encoding for every program (value-level). Stability comparisons of sized values use value-and-size equality (FIX2 size-aware; repaired in /repo 8b62bf8).",
     technique="static analysis: dominance / edge-dominance over MIR, happens-before of field load vs store, comparison-operand provenance, control-dependence of shortcut stores",
     design_ref="3 FIX, 4 C02",
 )
